@@ -1,6 +1,6 @@
 (* Property C18.  Only theorem statements closed by `exact`, each followed by Print Assumptions. *)
-From Coq Require Import List Bool PArith Permutation.
-From C18 Require Import Model Proofs Statement.
+From Coq Require Import List ListDec Bool PArith Permutation.
+From C18 Require Import Model Proofs ProofsInverse ProofsDir Statement.
 Import ListNotations.
 
 (* load_graph seeds the graph without error exactly when no two sources share a module name (any number of sources) *)
@@ -50,10 +50,48 @@ Print Assumptions dir_eq_files_refuted.
 (* Statement.crawl_find_inverse_strict is REFUTED by the faithful model: w/{ a.py a/{ __init__.py } } *)
 Theorem crawl_find_inverse_strict_refuted :
   exists o t f m b g,
-    wf_node (Dir t) = true /\ valid_names t = true /\ isfile t f = true /\
+    wf_node (Dir t) = true /\ valid_names t = true /\ isfile t f = true /\ py_path f = true /\
     crawl_up o t f = Ok (m, b) /\ find_module o t [b] m = Found g /\ strict_ok f g = false.
 Proof.
   exists (classic []), tree_pkg_shadows, [(a_, Py); dn w_], [a_], [dn w_], [(Init, Py); dn a_; dn w_].
   repeat split.
 Qed.
 Print Assumptions crawl_find_inverse_strict_refuted.
+
+(* THE INVERSE LAW, every tree / depth / option combination (classic, namespace packages, explicit package bases with
+   any mypy_path and cwd): if crawl_up gives file f the module name m (non-empty) and base b, then find_module on [b]
+   finds m at f, at f's sibling stub, at the package n/__init__.py[i] beside module file n.py[i] (same module name:
+   duplicate error if both are given), or - namespace mode only - at the directory n beside n.py[i]. *)
+Theorem crawl_find_inverse : forall o t f m b,
+  valid_names t = true -> isfile t f = true -> py_path f = true ->
+  crawl_up o t f = Ok (m, b) -> m <> [] ->
+  exists g, find_module o t [b] m = Found g /\ rel_ok o f g = true.
+Proof. exact crawl_find_inverse_main. Qed.
+Print Assumptions crawl_find_inverse.
+Theorem crawl_find_inverse_bool : Statement.crawl_find_inverse.
+Proof. exact crawl_find_inverse_lemma. Qed.
+Print Assumptions crawl_find_inverse_bool.
+(* classic mode never answers with a directory: the namespace disjunct needs namespace_packages *)
+Example crawl_find_inverse_ex :
+  valid_names tree_pkg_shadows = true /\ isfile tree_pkg_shadows [(Init, Py); dn a_; dn w_] = true /\
+  crawl_up (classic []) tree_pkg_shadows [(Init, Py); dn a_; dn w_] = Ok ([a_], [dn w_]).
+Proof. repeat split. Qed.
+
+(* DIR = FILES IN ANY ORDER, every tree / depth / option combination without a module file beside a same-named
+   directory: unless two files share a module name (the duplicate check then fires, theorem duplicate_detected),
+   find_sources_in_dir and the per-file crawl of all .py[i] files below the directory, in any order, yield the same
+   sources. *)
+Theorem dir_eq_files_no_shadow : Statement.dir_eq_files_no_shadow.
+Proof.
+  intros o t d l_dir fs l_files W S HD P HC.
+  assert (D : forall a b : modname, {a = b} + {a <> b}) by (apply list_eq_dec; decide equality; apply Pos.eq_dec).
+  destruct (NoDup_dec D (map s_mod l_files)) as [ND|ND].
+  - left. exact (dir_eq_files_lemma o t d l_dir fs l_files W S HD P HC ND).
+  - right. exact ND.
+Qed.
+Print Assumptions dir_eq_files_no_shadow.
+Example dir_eq_files_no_shadow_ex :
+  let t := [((w_, NoExt), Dir [((a_, Py), File); ((b_, NoExt), Dir [((Init, Py), File); ((a_, Pyi), File)])])] in
+  wf_node (Dir t) = true /\ no_shadow t = true /\
+  exists l, find_sources_in_dir (classic []) t [dn w_] = Ok l /\ length l = 3.
+Proof. split; [reflexivity|]. split; [reflexivity|]. eexists. split; [vm_compute; reflexivity | reflexivity]. Qed.
